@@ -45,6 +45,17 @@ CLAIMED['C11'] = dict(
     technique="type-directed conversion lint over the resolved AST; call-graph must-summaries under sync-mode assumptions; guarded-reachability and dominance rules",
     ref="DESIGN.md section 4, C11")
 
+CLAIMED['C15'] = dict(
+    text="Structural necessary conditions, exhaustively over every table row and rule instance: the three parameter tables are complete, ordered "
+         "(lower <= default <= upper by constant evaluation) and uniquely named; every enumerator has its own case in its typed setter and inner "
+         "value switches enumerate exactly the documented range; the range guards reject out-of-range values including NaN; no rejecting return of "
+         "a setter is reachable after a state change; the value arrays are written only by their owners and every loop over a parameter array is "
+         "bounded by that array's own COUNT; setters touch the LPs only in the sense/offset/sync arms; the two text front ends compare names "
+         "exactly against the right table and reach the same typed setter through the same conversion. Not a proof that a stored value is the value "
+         "later used, nor of printed precision.",
+    technique="table extraction + constant evaluation, three-valued guard evaluation, CFG reachability (mutate-before-reject), who-may-write and sibling-parser comparison over the clang-resolved AST",
+    ref="DESIGN.md section 4, C15")
+
 NA = {
     'C10': "every clause quantifies over run-time numbers (residuals at rounding level, singular vs. well-conditioned, agreement of multi-rhs solves); "
            "no structural clause is both checkable and necessary (DESIGN.md section 5)",
